@@ -3,5 +3,6 @@ CONSTANTS MaxOps = 5
 Widths = {1, 130}
 Bursts = {129}
 Fam = {"stack", "frame", "closure"}
+Deep = FALSE
 INVARIANT FramesDistinct
 CHECK_DEADLOCK FALSE
